@@ -1223,6 +1223,21 @@ func (e *engine) doCall(fr *frame, site ssa.Instruction, c *ssa.CallCommon, preF
 		case "closure":
 			target, free = fun.Fn, fun.Args
 			name = funcName(fun.Fn)
+			// a bound method value (x.m used as a function): go/ssa wraps it in a synthetic
+			// closure whose only job is to call m with the captured receiver - call m directly
+			if target != nil && target.Synthetic != "" && target.Blocks != nil && len(fun.Args) == 1 {
+				for _, tb := range target.Blocks {
+					for _, ti := range tb.Instrs {
+						if ci, ok := ti.(ssa.CallInstruction); ok {
+							if m := ci.Common().StaticCallee(); m != nil && m.Blocks != nil && len(m.Params) == len(args)+1 {
+								target, free = m, nil
+								args = append([]*Term{fun.Args[0]}, args...)
+								name = funcName(m)
+							}
+						}
+					}
+				}
+			}
 		}
 	}
 	if name == "dynamic" && fun != nil && fun.Op == "global" {
